@@ -33,6 +33,9 @@ def _preprocess_data(data, rml_rule, references, config):
         if config.get_db_url(rml_rule['source_name']).lower().startswith(ORACLE.lower()):
             data = normalize_oracle_identifier_casing(data, references)
 
+    # a NULL (None/NaN) in a referenced column suppresses the row, it must not be turned into the text 'None' or 'nan'
+    data = data.dropna(axis=0, how='any', subset=list(references))
+
     # TODO: can this be removed?
     data = data.map(str)
 
